@@ -21,7 +21,7 @@ GH = {"READ": "gh_read", "WRITE": "gh_write", "READWRITE": "gh_readwrite", "INC"
 # loop types
 LT = {"": 0, "colours": 1, "colour": 2, "dof": 3, "null": 4}
 # directive kinds of the model
-D_OMP_PARALLEL, D_OMP_DO, D_OMP_PARALLEL_DO, D_ACC_LOOP, D_ACC_PARALLEL, D_ACC_KERNELS, D_OTHER = range(7)
+D_OMP_PARALLEL, D_OMP_DO, D_OMP_PARALLEL_DO, D_ACC_LOOP, D_ACC_PARALLEL, D_ACC_KERNELS, D_ACC_LOOP_SEQ, D_OTHER = range(8)
 # transformations of the model (protocol ids)
 TRANS = ["colour", "omp_parallel_do", "omp_do", "omp_parallel", "acc_loop", "acc_parallel", "acc_kernels",
          "gen_omp_do", "gen_omp_parallel_do"]
@@ -317,12 +317,19 @@ def dir_kind(node):
     if type(node) is N.OMPDoDirective:
         return D_OMP_DO
     if isinstance(node, N.ACCLoopDirective):
-        return D_ACC_LOOP
+        # read the EMITTED directive text, not the options that were passed to the transformation
+        return D_ACC_LOOP_SEQ if acc_loop_is_seq(node) else D_ACC_LOOP
     if isinstance(node, N.ACCParallelDirective):
         return D_ACC_PARALLEL
     if isinstance(node, N.ACCKernelsDirective):
         return D_ACC_KERNELS
     return D_OTHER
+
+
+def acc_loop_is_seq(directive):
+    """True iff the `!$acc loop` line this directive writes carries the `seq` clause."""
+    words = directive.begin_string().replace(",", " ").split()
+    return "seq" in words[2:]
 
 
 def statement_nodes(sched):
@@ -407,7 +414,7 @@ def is_parallel_loop(loop):
     if isinstance(p, (N.OMPDoDirective, N.OMPParallelDoDirective, N.OMPLoopDirective, N.OMPTaskloopDirective)):
         return True
     if isinstance(p, N.ACCLoopDirective):
-        return not getattr(p, "sequential", False)
+        return not acc_loop_is_seq(p)     # `seq` = serial; gang / vector / independent / bare = parallel
     return False
 
 
@@ -433,36 +440,52 @@ def colours_in_region(sched):
 
 
 # ---- one history step on the real schedule ---------------------------------------------
-def make_trans(name):
+def make_trans(name, opts=None):
     from psyclone import transformations as T
     from psyclone.psyir.transformations import ACCKernelsTrans, OMPLoopTrans
-    return {"colour": T.Dynamo0p3ColourTrans, "omp_parallel_do": T.DynamoOMPParallelLoopTrans,
-            "omp_do": T.Dynamo0p3OMPLoopTrans, "omp_parallel": T.OMPParallelTrans,
+    opts = opts or {}
+    sched = opts.get("omp_schedule")
+    if name == "omp_parallel_do":
+        return T.DynamoOMPParallelLoopTrans(omp_schedule=sched) if sched else T.DynamoOMPParallelLoopTrans()
+    if name == "omp_do":
+        return T.Dynamo0p3OMPLoopTrans(omp_schedule=sched) if sched else T.Dynamo0p3OMPLoopTrans()
+    if name == "gen_omp_do":
+        return OMPLoopTrans(omp_schedule=sched) if sched else OMPLoopTrans()
+    if name == "gen_omp_parallel_do":
+        return T.OMPParallelLoopTrans(omp_schedule=sched) if sched else T.OMPParallelLoopTrans()
+    return {"colour": T.Dynamo0p3ColourTrans, "omp_parallel": T.OMPParallelTrans,
             "acc_loop": T.ACCLoopTrans, "acc_parallel": T.ACCParallelTrans,
-            "acc_kernels": ACCKernelsTrans, "gen_omp_do": OMPLoopTrans,
-            "gen_omp_parallel_do": T.OMPParallelLoopTrans}[name]()
+            "acc_kernels": ACCKernelsTrans}[name]()
+
+
+def apply_options(opts):
+    """The `options` dictionary handed to apply(): everything in opts except constructor arguments.  'force' is never
+    passed (excluded by the property)."""
+    d = {k: v for k, v in (opts or {}).items() if k != "omp_schedule" and v is not None}
+    assert "force" not in d
+    return d or None
 
 
 def apply_step(sched, step):
-    """step = [trans name, [pre-order indices]].  Returns ("ok", None) or ("refused", message)."""
+    """step = [trans name, [pre-order indices]] or [name, indices, options].
+    Returns ("ok", None) or ("refused", message)."""
     from psyclone.psyir.transformations import TransformationError
-    from psyclone.errors import InternalError
-    name, targets = step
+    name, targets = step[0], step[1]
+    opts = step[2] if len(step) > 2 else None
     nodes = statement_nodes(sched)
     if any(t >= len(nodes) for t in targets) or not targets:
         return "badtarget", None
-    tr = make_trans(name)
+    tr = make_trans(name, opts)
     try:
         if name in LOOP_TRANS:
-            tr.apply(nodes[targets[0]])
+            tr.apply(nodes[targets[0]], apply_options(opts))
         else:
-            tr.apply([nodes[t] for t in targets])
+            tr.apply([nodes[t] for t in targets], apply_options(opts))
     except TransformationError as e:
         return "refused", str(e.value)[:200]
-    except Exception as e:   # noqa: broad on purpose, see comment
-        # PSyclone crashed instead of raising TransformationError (observed: AttributeError while formatting the
-        # message of a refusal in RegionTrans.validate).  Counted as a refusal; the schedule comparison that
-        # follows detects any partial modification.
+    except Exception as e:   # noqa: broad on purpose
+        # PSyclone crashed instead of raising TransformationError (observed: AttributeError / GenerationError while
+        # formatting the message of a refusal in RegionTrans.validate).
         return "refused", "CRASH " + type(e).__name__ + ": " + str(e)[:160]
     return "ok", None
 
